@@ -87,9 +87,9 @@ def get_pkg_digest() -> hashlib._Hash:
 log = logging.getLogger('chameleon.template')
 
 # One lock per file template, kept beside the instances rather than on
-# them (instances stay as copyable and picklable as they were).
-_reload_locks: weakref.WeakKeyDictionary[Any, Any] = \
-    weakref.WeakKeyDictionary()
+# them (instances stay as copyable and picklable as they were) and found
+# by identity: templates that compare equal are still two templates.
+_reload_locks: dict[int, tuple[Any, Any]] = {}
 _reload_locks_guard = threading.Lock()
 
 
@@ -97,15 +97,38 @@ _reload_lock_shared = threading.RLock()
 
 
 def _reload_lock(template: Any) -> Any:
-    try:
-        return _reload_locks[template]
-    except KeyError:
+    key = id(template)
+    entry = _reload_locks.get(key)
+    if entry is None or entry[0]() is not template:
         with _reload_locks_guard:
-            return _reload_locks.setdefault(template, threading.RLock())
-    except TypeError:
-        # (an instance that cannot be a dictionary key or cannot be
-        # referenced weakly: such templates share one lock)
-        return _reload_lock_shared
+            entry = _reload_locks.get(key)
+            if entry is None or entry[0]() is not template:
+                def forget(ref: Any, key: int = key) -> None:
+                    entry = _reload_locks.get(key)
+                    if entry is not None and entry[0] is ref:
+                        del _reload_locks[key]
+
+                try:
+                    ref = weakref.ref(template, forget)
+                except TypeError:
+                    # (an instance that cannot be referenced weakly:
+                    # such templates share one lock)
+                    return _reload_lock_shared
+                entry = _reload_locks[key] = (ref, threading.RLock())
+    return entry[1]
+
+
+def _reset_reload_locks() -> None:
+    # A lock that a thread of the parent process held at the moment of
+    # the fork would stay held in the child for ever.
+    global _reload_locks_guard, _reload_lock_shared
+    _reload_locks.clear()
+    _reload_locks_guard = threading.Lock()
+    _reload_lock_shared = threading.RLock()
+
+
+if hasattr(os, 'register_at_fork'):
+    os.register_at_fork(after_in_child=_reset_reload_locks)
 
 
 def _make_module_loader() -> ModuleLoader:
